@@ -44,6 +44,7 @@ type gen struct {
 	extremes           bool
 	tunnels            uint64
 	regime, regimeLeft int
+	swingLeft          int
 	dkg                map[tss.GroupID][]*tssworld.Member
 	lastParam          string
 	msgKinds           map[string]bool
@@ -258,6 +259,38 @@ func sweepSpecs() []sweepSpec {
 	add("restake", restaketypes.DefaultParams())
 	add("globalfee", globalfeetypes.DefaultParams())
 	return out
+}
+
+// periodSwing raises tss.signing_period for a few blocks and then lowers it again while attempts created under the
+// long period are still queued: the expiration queue is then no longer ordered by expiry height.
+func (g *gen) periodSwing() {
+	h, w, r := g.h, g.h.W, g.h.Rng
+	set := func(v uint64) bool {
+		tp := w.App.TSSKeeper.GetParams(w.Ctx())
+		tp.SigningPeriod = v
+		if _, err := w.Authority(tsstypes.NewMsgUpdateParams(sim.GovAddr().String(), tp)); err != nil {
+			return false
+		}
+		h.TssParams = tp
+		h.Trk.Period = v
+		h.ParamChangedAt = append(h.ParamChangedAt, w.Height+1)
+		g.lastParam = fmt.Sprintf("tss.SigningPeriod=%d", v)
+		h.Logf("params tss.SigningPeriod=%d (swing)", v)
+		return true
+	}
+	switch {
+	case g.swingLeft == 0 && r.Chance(1, 25):
+		if set(uint64(r.Range(20, 60))) {
+			g.swingLeft = r.Range(2, 5)
+		}
+	case g.swingLeft > 1:
+		g.swingLeft--
+	case g.swingLeft == 1:
+		g.swingLeft = 0
+		if set(uint64(r.Range(1, 3))) {
+			g.run.Count("params:signing-period-raised-then-lowered-with-attempts-in-flight", 1)
+		}
+	}
 }
 
 // changeParams redraws one field of one module's params and sends the real MsgUpdateParams.
@@ -744,6 +777,9 @@ func setup(run *sim.Run, h *tssworld.Hist, thorough bool, sweep *sweepSpec) []ts
 		} else if h.Rng.Chance(1, 4) {
 			g.changeParams()
 		}
+		if sweep == nil {
+			g.periodSwing()
+		}
 		g.transitions()
 	}
 	return []tssworld.Monitor{&divMon{g: g}}
@@ -777,7 +813,7 @@ func main() {
 		run.Count("msg-types-exercised", len(ks))
 		run.Extra("msg_types", ks)
 	}
-	for _, c := range []string{"params:accepted", "params:rejected-by-validation", "authority:transition-proposed", "blocks-compared-across-replicas", "sweep:param-values-accepted", "replica-restarted-from-db", "checktx-on-primary-only", "params:executed-then-rolled-back", "proposal-executed-optimistically-then-abandoned(primary only)", "price-regime:tiny-ended", "price-regime:near-2^64-ended", "tx:feeds:submit-extreme:ok"} {
+	for _, c := range []string{"params:accepted", "params:rejected-by-validation", "authority:transition-proposed", "blocks-compared-across-replicas", "sweep:param-values-accepted", "replica-restarted-from-db", "checktx-on-primary-only", "params:executed-then-rolled-back", "proposal-executed-optimistically-then-abandoned(primary only)", "params:signing-period-raised-then-lowered-with-attempts-in-flight", "price-regime:tiny-ended", "price-regime:near-2^64-ended", "tx:feeds:submit-extreme:ok"} {
 		run.Require(c, 1)
 	}
 	run.Require("msg-types-exercised", 33) // 30 band Msg types by tx + bank/staking; the other 9 (UpdateParams x7 incl. oracle by authority, TransitionGroup, ForceTransitionGroup) go through the authority path
